@@ -357,9 +357,17 @@ fn mutate_file(v: &mut FileVal, t: &mut Tape, all_keys: &[String]) -> Vec<String
                     let base = format!("pl{}{}", entries.len(), ["", "", "_ordinal", "_other", "_one", "_ordinal_ordinal"][t.pick(6)]);
                     let ord = if t.chance(1, 3) { "_ordinal" } else { "" };
                     entries.push((format!("{base}{ord}_one"), FileVal::Str(format!("one $t({target})"))));
-                    entries.push((format!("{base}{ord}_other"), FileVal::Str(format!("{{{{ count }}}} $t({target}, {{\"count\": 2}}) $t({base})"))));
+                    // (the self reference makes the project cyclic; without it the project may be valid)
+                    let cyc = if t.coin() { format!(" $t({base})") } else { String::new() };
+                    let counted = if t.coin() { format!(" $t({target}, {{\"count\": 2}})") } else { String::new() };
+                    entries.push((format!("{base}{ord}_other"), FileVal::Str(format!("{{{{ count }}}}{counted}{cyc}"))));
                     if t.coin() {
                         entries.push((format!("{base}_ordinal_other"), FileVal::Str("x".into())));
+                    }
+                    if t.chance(1, 3) {
+                        // a second plural named after a form of the first one (`a_one_one` + `a_one_other` next to `a_one` + `a_other`)
+                        entries.push((format!("{base}{ord}_one_one"), FileVal::Str("1".into())));
+                        entries.push((format!("{base}{ord}_one_other"), FileVal::Str(format!("2 $t({target})"))));
                     }
                     entries.push((format!("rg{}", entries.len()), FileVal::Seq(vec![FileVal::Seq(vec![FileVal::Str(format!("$t({base}, {{\"count\": 1}})")), FileVal::Str("1".into())]), FileVal::Seq(vec![FileVal::Str(format!("$t({target})"))])])));
                     labels.push("reference-in-plural-or-range".into());
@@ -647,6 +655,8 @@ pub const REGRESSIONS: &[(&str, &str)] = &[
     ("D27-empty-plural-base", r#"{"_one": "a", "_other": "b", "k": "v"}"#),
     ("D27-underscore-plural-base", r#"{"__one": "a", "__other": "b", "-_ordinal_one": "c", "-_ordinal_other": "d"}"#),
     ("D28-duplicate-replaces-subkeys-with-reference", r#"{"g": {"x": "$t(k)"}, "g": "plain", "k": "v"}"#),
+    ("D40-reference-in-plural-form-shadowed-by-another-plural", r#"{"x": "X", "a_one": "$t(x)", "a_other": "others", "a_one_one": "1", "a_one_other": "2"}"#),
+    ("D40-ordinal", r#"{"x": "X", "a_ordinal_few": "$t(x)", "a_ordinal_other": "o", "a_ordinal_few_one": "1", "a_ordinal_few_other": "2"}"#),
     ("D28-duplicate-replaces-plural-form-reference", r#"{"g": {"p_one": "$t(k)", "p_other": "o"}, "g": {"p": "s"}, "k": "v"}"#),
 ];
 
